@@ -18,18 +18,21 @@ META = {
                  "for the constant-table solids; kernel-checked correspondence batches (exact face/edge/cell lists, "
                  "coordinates through binary64) and an independent half-edge oracle on the real meshes",
     "level_text": "Machine-checked Coq theorems, for ALL admissible parameters, about the definitions generated on every run from "
-                  "the current source of mouette/procedural: indices in range, every vertex used, simple faces, no directed "
-                  "edge twice (consistently oriented edge-manifold, no repeated face) for unit_grid, unit_triangle, torus, "
-                  "sphere_uv, cylinder, ring, flat_ring; documented vertex/face/edge counts (incl. unequal resolutions); closedness "
-                  "or the explicit border cycle(s), connectedness and Euler characteristic 2/0/1/0 for all of them except "
-                  "unit_triangle (PARTIAL: its border/Euler/connectedness, and the vertex-umbrella clause of every parametric "
-                  "generator, are established only per tested parameter tuple by a kernel-evaluated checker that is proved sound); "
-                  "the constant-table solids (triangle, quad, tetrahedron, hexahedron, cube, hexahedron_4pts, icosahedron and the "
-                  "duals octahedron, dodecahedron) completely, umbrellas included; triangulate/volume/open/loop switches and the "
-                  "call plumbing; on-surface identities over the reals for sphere_uv, torus, icosahedron, unit square, requested "
-                  "corners (PARTIAL: cylinder, ring rims, sphere_fibonacci and the ring apex defect are checked numerically only). "
-                  "icosphere, sphere_fibonacci(build_surface), spherify_vertices, cylindrify_edges are outside the generated model: "
-                  "independent oracle on the real meshes only.",
+                  "the current source of mouette/procedural: (C14_well_formed) indices in range, every vertex used, simple faces, no "
+                  "directed edge twice (consistently oriented edge-manifold, no repeated face) for unit_grid, unit_triangle, torus, "
+                  "sphere_uv, cylinder, ring, flat_ring; (C14_counts) documented vertex/face/edge counts incl. unequal resolutions; "
+                  "(C14_topology_partial) closedness or the explicit border cycle(s), connectedness and Euler characteristic "
+                  "2/0/1/0 for grid, torus, sphere_uv, cylinder with/without caps, ring, flat_ring; for unit_triangle only "
+                  "connectedness; PARTIAL: unit_triangle's border loop/Euler characteristic and the vertex-umbrella clause of every "
+                  "parametric generator are established only per tested parameter tuple, by a kernel-evaluated checker proved sound "
+                  "(C14_runtime_checker_sound); (C14_tables) the constant-table solids triangle, quad, tetrahedron, hexahedron, cube, "
+                  "hexahedron_4pts, icosahedron and the duals octahedron, dodecahedron completely, umbrellas included; "
+                  "(C14_params_honoured_partial) triangulate/volume/open/loop switches, ring's N<3 guard and the call plumbing, "
+                  "not the ring apex defect (numerical check only); (C14_on_surface_partial) identities over the reals for "
+                  "sphere_uv, torus, icosahedron, cylinder, ring rim, unit square, requested corners, not flat_ring's rim nor "
+                  "sphere_fibonacci (numerical check only). icosphere, sphere_fibonacci(build_surface), spherify_vertices, "
+                  "cylindrify_edges and dual_mesh on arbitrary input are outside the generated model: independent oracle on the real "
+                  "meshes (dual_mesh also compared with a hand model of vertex_to_faces).",
     "level_note": "Trusted: Coq kernel + vm_compute; the Python-ast -> Gallina translator vf/translate/c14.py (exercised: "
                   "every generated definition is also run against the implementation); the driver's canonicalisation; "
                   "numpy linspace/cos/sin vs. the model's binary64 evaluation within 1e-9; RawMeshData.prepare / "
@@ -539,7 +542,7 @@ SHAPE = {"triangle": 3, "quad": 3, "unit_grid": 3, "unit_triangle": 3, "tetrahed
 
 def gen_cases(rng, tier):
     quick = tier == "quick"
-    R = 7 if quick else 9
+    R = 7 if quick else 12
     cs = []
     add = lambda g, **kw: cs.append({"gen": g, "kw": kw})
     b2 = (False, True)
@@ -609,7 +612,7 @@ def gen_cases(rng, tier):
     for nu, nv in ((1, 1), (1, 3), (3, 1), (0, 2)):
         add("unit_grid", nu=nu, nv=nv, triangulate=False, generate_uvs=False)
     # -- random larger ones
-    nbig = 24 if quick else 300
+    nbig = 24 if quick else 2500
     for _ in range(nbig):
         g = rng.choice(["unit_grid", "unit_triangle", "torus", "sphere_uv", "cylinder", "ring", "flat_ring"])
         a, b = rng.randint(2, 40), rng.randint(3, 40)
@@ -712,6 +715,7 @@ def coord_case_term(case, ob, info):
     bp = [bool(kw.get(n, d.get(n, False))) for n in inf["bools"]]
     fp = [float(kw.get(n, d.get(n))) for n in inf["floats"]]
     vp = [(kw[n]["vec"] if n in kw else d[n]) for n in inf["vecs"]]
+    vp += [ob["X"][k] for k in inf.get("overrides", [])]   # vertices overwritten after the loops are parameters of the model
     return "(%s, %s, %s, %s, %s, %s)" % (
         zlit(inf["code"]), zlist(ip), coq_list([coq_bool(b) for b in bp]), coq_list([float_pair(x) for x in fp]),
         coq_list([fvec(v) for v in vp]), coq_list([fvec(p) for p in ob["X"]]))
@@ -800,7 +804,7 @@ def run(ctx):
     ctx.rule = ("every generator x all resolutions up to %d x %d (minimal and unequal included) x all boolean switches, plus random "
                 "larger resolutions, dyadic radii/centres/corner points; malformed stream: ring with N<3. Non-trivial = an "
                 "admissible call that returned a mesh with at least one face or edge; distinct by canonical JSON of the call"
-                % ((7, 7) if quick else (9, 9)))
+                % ((7, 7) if quick else (12, 12)))
     ctx.assumptions += ["admissible resolutions: grids/triangles nu,nv>=2; torus segments>=3 and 0<minor<major radius; "
                         "cylinder N>=3, P1!=P2; sphere_uv n_lat>=1, n_long>=3; ring N>=3 (smaller N must raise); flat_ring N>=1; "
                         "closed chain n>=3; radii > 0",
